@@ -64,6 +64,12 @@ func New(name string, opts ...options.Option[WorkerPool]) *WorkerPool {
 
 // Start starts the WorkerPool.
 func (w *WorkerPool) Start() *WorkerPool {
+	// wait for a previous shutdown to complete before taking the lock: the dispatcher reads isRunning under the read
+	// lock, so it (and with it the workers) can only finish shutting down while the lock is free.
+	if !w.IsRunning() {
+		w.ShutdownComplete.Wait()
+	}
+
 	w.mutex.Lock()
 	defer w.mutex.Unlock()
 
